@@ -219,6 +219,15 @@ class AbstractSpatialMap(AbstractObj):
             for d in range(D):
                 tr.globals_a['SPEC_PHYS_c%d' % d] = REAL
             return ExprMat(D, 1, lambda r, c, i=i: E.idx('SPEC_PHYS_c%d' % r, i, REAL))
+        if name == 'toUnconstrained':
+            # (physical point, i) -> unconstrained coordinates of point i, DOF[i] <= 64 entries, named SPEC_UNC[64 i + r]
+            i = tr.scalar(args[1])
+            tr.globals_a['SPEC_UNC'] = REAL
+            ns = tr.namespace()
+            for j, a in enumerate(args):
+                ns['arg%d' % j] = a
+            tr.anchor('spatial_map.toUnconstrained', ns)
+            return ExprMat(E.idx('SPEC_DOF', i, INT), 1, lambda r, c, i=i: E.idx('SPEC_UNC', i * 64 + E.const(r), REAL))
         if name == 'backwardGrad':
             # (xi, physical gradient, i) -> unconstrained gradient of point i, DOF[i] <= 64 entries: named SPEC_BACK[64 i + r]
             # (a fresh name per call site would also do; what it equals is the map's business, see C07)
@@ -760,7 +769,14 @@ class Evaluate(Contract):
         S.ensures(S.result.eq(tc + wc + trap + ite(S.rho_energy_ > 0, S.rho_energy_ * en, 0)),
                   'cost_is_time_cost_plus_waypoint_cost_plus_quadrature_plus_weighted_energy')
         # ---- gradient assembly (C07): names for the results of the gradient sources, then the chain-rule combination
-        GR, EGr, WG = W('grads'), W('energy_grads'), W('discrete_grad_q_buffer')
+        GR, EGr, WG0 = W('grads'), W('energy_grads'), W('discrete_grad_q_buffer')
+        # instance with the zero waypoint cost (what the two-cost overload forwards): no waypoint functor is called, no rows are added
+        void_wc = bool(S.gen.opt.get('void_waypoint_cost'))
+
+        class _NoRows(object):
+            def at(self, r, d):
+                return E.const(Fraction(0))
+        WG = _NoRows() if void_wc else WG0
         rho = S.rho_energy_
         wE = lambda e: ite(rho > 0, rho * e, 0)
         PGT, PGTn = S.spec_array('PG_times')           # propagateGrad's duration gradient (snapshot right after the call)
@@ -856,6 +872,7 @@ class Evaluate(Contract):
         def wp_call(G):
             ns = G.ctx
             G.lemma(E.const(getattr(ns.v('arg0'), 'name', 1) == CW.name), 'waypoint_cost_receives_decoded_waypoints')
+        S.ghost('entry', lambda G: G.set(lv(wc), E.const(Fraction(0))))        # stays zero when no waypoint functor is called
         S.ghost('waypoints_cost.call', wp_call)
         S.ghost('waypoints_cost.ret', lambda G: G.set(lv(wc), G.ctx.ret))
         snap = S.fresh_real('cost_before_quadrature')
@@ -1102,3 +1119,100 @@ class CheckGradientsTwoCost(Contract):
             G.lemma(ns.carg5.eq(S.eps) & ns.carg6.eq(S.tol), 'forwards_the_callers_step_and_tolerance')
             G.lemma(E.const(getattr(ns.v('carg0'), 'name', 1) == getattr(x, 'name', 2)), 'forwards_the_checked_vector')
         S.ghost('call.checkGradients.before', before)
+
+
+@register
+class EvaluateTwoCost(Contract):
+    """two-cost evaluate: forwards to the three-cost overload with the zero waypoint cost and everything else unchanged"""
+    key = 'SplineOptimizer.evaluate'
+    nparams = 6
+
+    def spec(self, S):
+        x, gout = S.v('x'), S.v('grad_out')
+        ws = S.v('ws').target
+        OFF = layout_defs(S)
+        for label, p in evaluate_requires(S, OFF, x, ws):
+            S.requires(p, label)
+        S.assigns(ws, gout, *[S.v(v) for v in LAYOUT_STATE])
+        inner = S.fresh_real('inner_cost')
+        S.ensures(S.result.eq(inner), 'returns_what_the_three_cost_overload_returns')
+        if S.mode != 'verify':
+            return
+        from ir import LV
+
+        def before(G):
+            ns = G.ctx
+            same = lambda a, b: E.const(a is b or getattr(a, 'name', 1) == getattr(b, 'name', 2))
+            G.lemma(same(ns.v('carg0'), x) & same(ns.v('carg1'), gout), 'forwards_decision_vector_and_gradient')
+            G.lemma(E.const(ns.v('carg2') is S.v('time_cost_func')) & E.const(ns.v('carg4') is S.v('integral_cost_func')), 'forwards_the_two_cost_functors')
+            G.lemma(E.const(getattr(ns.v('carg3'), 'cls', None) is not None and ns.v('carg3').cls.name == 'VoidWaypointsCost'), 'waypoint_cost_is_the_zero_cost')
+            G.lemma(E.const(getattr(ns.v('carg5'), 'target', None) is ws), 'forwards_the_workspace')
+        S.ghost('call.evaluate.before', before)
+        S.ghost('call.evaluate.after', lambda G: G.set(LV(inner.args[0], REAL), G.ctx.ret))
+
+
+@register
+class GenerateInitialGuess(Contract):
+    """encode of the reference state, in the same layout terms as evaluate's decode"""
+    key = 'SplineOptimizer.generateInitialGuess'
+
+    def spec(self, S):
+        D = S.cfg['DIM']
+        N = S.num_segments_
+        fl = flags(S)
+        x = S.v('result')
+        OFF = layout_defs(S)
+        for label, p in layout_ok(S, OFF):
+            S.requires(under(mk_not(S.layout_dirty_), p), 'layout_invariant_' + label)
+        cnt = n_entries(S)
+        doff = OFF(cnt)
+        dim = doff + n_blocks(S) * D
+        rt, rw, rbc = S.v('ref_times_'), S.v('ref_waypoints_'), S.v('ref_bc_')
+        S.requires((N >= 1) & (N <= NMAX) & rt.size().eq(N) & rw.R.eq(N + 1), 'configured_problem')
+        S.terms(0, N, N - 1, cnt, cnt - 1)
+        S.assigns(*[S.v(v) for v in LAYOUT_STATE])
+        TAU, _ = S.spec_array('TAU')             # TAU[i] names toTau(reference duration i)
+        S.ensures(x.R.eq(dim), 'initial_guess_has_the_layout_dimension')
+        S.ensures(S.forall(0, N, lambda i: [x.at(i, 0).eq(TAU(i))]), 'first_N_variables_are_time_map_inverse_of_the_reference_durations')
+        rank = E.const(0)
+        for f, flag in bc_slots(S):
+            for d in range(D):
+                S.ensures(implies(fl[flag], x.at(doff + rank * D + d, 0).eq(rbc.fields[f].at(d, 0))), 'boundary_block_%s_holds_the_reference_value_%d' % (f, d))
+            rank = rank + ite(fl[flag], 1, 0)
+        if S.mode != 'verify':
+            return
+        lay = S.v('spatial_layout_')
+        lv_ = {}
+        lay_inv = lambda: [('layout_size', lay.size().eq(cnt) & mk_not(S.layout_dirty_)),
+                           ('layout_entries', S.forall(0, lay.size(), lambda k: conj([
+                               lay.elem(k).field('point_index').rd().eq(k + first_idx(S)),
+                               lay.elem(k).field('dof').rd().eq(DOF(k + first_idx(S))),
+                               lay.elem(k).field('offset').rd().eq(OFF(k))]))),
+                           ('offsets_below_total', S.forall(0, cnt + 1, lambda j: OFF(cnt - j) <= OFF(cnt)))]
+        S.terms(cnt - S.sk(0) - 1, cnt - S.sk(0))
+        S.ghost('call.ensureLayoutCache.after', lambda G: G.induction(0, cnt + 1, lambda j: [OFF(cnt - j) <= OFF(cnt)], 'offsets_below_total'))
+
+        def loop0_inv(L):
+            lv_[0] = L.i
+            return lay_inv() + [('range', (L.i >= 0) & (L.i <= N)), ('size', L.x.R.eq(dim)), ('times', S.forall(0, L.i, lambda i: [L.x.at(i, 0).eq(TAU(i))]))]
+        S.loop(0, inv=loop0_inv, variant=lambda L: N - L.i, terms=lambda L: [L.i])
+
+        def to_tau(G):
+            G.lemma(G.ctx.arg0.eq(rt.at(lv_[0])), 'time_map_inverse_receives_the_reference_duration')
+            G.assume_fact(G.ctx.ret.eq(TAU(lv_[0])), 'TAU[i] names toTau(reference duration i)')
+        S.ghost('time_map.toTau', to_tau)
+
+        def loop1_inv(L):
+            lv_[1] = L.i
+            return lay_inv() + [('range', (L.i >= 0) & (L.i <= lay.size())), ('size', L.x.R.eq(dim)),
+                                ('offsets_monotone_so_far', S.forall(0, L.i + 1, lambda k: [OFF(k) <= OFF(L.i)])),
+                                ('times', S.forall(0, N, lambda i: [L.x.at(i, 0).eq(TAU(i))]))]
+        S.loop(1, inv=loop1_inv, variant=lambda L: lay.size() - L.i, terms=lambda L: [L.i, L.i + 1, cnt - L.i - 1, cnt - L.i])
+
+        def to_unc(G):
+            ns = G.ctx
+            p = lv_[1] + first_idx(S)
+            G.lemma(ns.arg1.eq(p), 'spatial_map_inverse_receives_the_point_index')
+            for d in range(D):
+                G.lemma(ns.v('arg0').at(d, 0).eq(rw.at(p, d)), 'spatial_map_inverse_receives_the_reference_waypoint_%d' % d)
+        S.ghost('spatial_map.toUnconstrained', to_unc)
